@@ -33,10 +33,15 @@ class Finding:
         return "%s %s %s :: %s" % (self.rule, self.loc, self.func, self.msg)
 
 
+CURRENT = None   # the Result under construction (lets the runner report findings made before an analysis error)
+
+
 class Result:
     """What one property check covered and found."""
 
     def __init__(self, pid: str):
+        global CURRENT
+        CURRENT = self
         self.pid = pid
         self.findings: List[Finding] = []
         self.obligations = 0
@@ -49,6 +54,7 @@ class Result:
         self.assumptions: List[str] = []
         self.explanation = ""
         self._seen = set()
+        self.floor_errors: List[str] = []
 
     def rule(self, rid: str, text: str):
         self.rules.setdefault(rid, {"obligations": 0, "discharged": 0, "text": text})
@@ -75,7 +81,9 @@ class Result:
         """A rule matching fewer instances than confirmed by hand means the checker no longer sees the code."""
         self.analysed[what] = count
         if count < minimum:
-            raise AnalysisError("instance floor: %s = %d < %d (anchor moved or extractor blind)" % (what, count, minimum))
+            # a missing instance is a checker problem unless a violation already explains it (e.g. a call site that
+            # was rewritten into a forbidden form): floors never mask findings
+            self.floor_errors.append("instance floor: %s = %d < %d (anchor moved or extractor blind)" % (what, count, minimum))
 
 
 def load_known() -> dict:
